@@ -738,6 +738,10 @@ fn do_append(t: &mut dyn Tbl, m: &mut Model, d: Descriptor, step: usize, st: &mu
             if sel >> 3 != len as u16 || sel & 4 != 0 || (sel & 3) as u64 != dpl {
                 return Err(viol(P, "selector", step, format!("append of {what} {w:x?} (DPL {dpl}) into first free slot {len} returned selector {sel:#x} = index {}, TI {}, RPL {}; expected index {len}, TI 0 (GDT), RPL {dpl}", sel >> 3, sel >> 2 & 1, sel & 3)));
             }
+            // the selector's own accessors describe the same fields
+            if s.index() != len as u16 || s.rpl() as u64 != dpl {
+                return Err(viol(P, "selector", step, format!("append of {what} {w:x?} (DPL {dpl}) into first free slot {len} returned selector {sel:#x} whose accessors report index {} and RPL {:?}; expected index {len}, RPL {dpl}", s.index(), s.rpl())));
+            }
             m.sels.push(SelInfo { sel: s, slot: len, nwords: w.len() });
             m.slots.extend_from_slice(&w);
             Ok(true)
